@@ -42,6 +42,10 @@ TRUSTED_BASE = [
     "Registry.Remove is called by the registered process itself after it handled Stopped (process.cleanup, Response.Result) "
     "- a third party calling the exported Remove on a live actor's PID is outside the model; every add works on a process "
     "object of its own; user code as gates and counters; strings interned to nat",
+    "translation tie (coverage.parts.sched.translation_tie; information, never a verdict): tools/regtrans (syntactic map of the methods of "
+    "*Registry to LMini terms, refusal outside its table, audit of the call sites of the registry in package actor), coq/RegSrcSem.v "
+    "(meaning of the fragment: defer at the call boundary, RWMutex exclusion, a disciplined critical section is one step - enforced as "
+    "stuckness, the reduction itself is an argument), coq/RegSrcProofs.v compiled outside the main build against the generated terms",
 ]
 ASSUMPTIONS = [
     "hand-written models Registry.v of actor/registry.go (interleaving, one step per lock acquisition + Start + Stopped) and of the "
